@@ -437,7 +437,12 @@ func (fr *Frame) evalBin(e *Expr, env *Env, st *State, old *State) *Val {
 		if b.Ty != nil {
 			if mt, ok := b.Ty.Underlying().(*types.Map); ok {
 				k := fr.coerce(a, mt.Key(), st)
-				return term(and(fmt.Sprintf("(distinct %s nil)", b.T), fmt.Sprintf("(select %s %s)", u.mapDom(st, mt, b.T), k)), B)
+				// `k in old(m)` means membership in the old contents of the map, not only the old map reference
+				dst := st
+				if rhs := e.args[1]; rhs.op == "call" && rhs.name == "old" {
+					dst = old
+				}
+				return term(and(fmt.Sprintf("(distinct %s nil)", b.T), fmt.Sprintf("(select %s %s)", u.mapDom(dst, mt, b.T), k)), B)
 			}
 		}
 		if strings.HasPrefix(u.srt(b), "(Array") {
